@@ -17,13 +17,13 @@ import (
 // timex. Stub: adders/reducers and the clock.
 
 type c09Add struct {
-	at       time.Duration
+	at, end  time.Duration // clock at entry and at exit (they differ only when the task was stalled inside the call)
 	v        int
 	inv, ret int64
 }
 
 type c09Red struct {
-	at       time.Duration
+	ats      []time.Duration // clock readings between entry and exit: the window is taken at one of them
 	sum      int
 	count    int64
 	inv, ret int64
@@ -57,6 +57,11 @@ func c09Run(r *zsim.Run) {
 	r.Logf("window size=%d interval=%v ignore=%v created=%v", size, interval, ignore, created)
 	var adds []c09Add
 	var reds []c09Red
+	if o.Intn(3) == 0 {
+		// tasks may be held at scheduling points, also inside a Reduce callback, long enough to cross buckets
+		r.StallOdds = zsim.Pick(o, 6, 20)
+		r.StallUnit = interval / 4
+	}
 	tasks := 1 + o.Intn(3)
 	done := 0
 	for t := 0; t < tasks; t++ {
@@ -80,20 +85,36 @@ func c09Run(r *zsim.Run) {
 				if o.Intn(3) == 0 {
 					var sum float64
 					var count int64
-					at := r.Now()
+					ats := []time.Duration{r.Now()}
 					inv := r.Seq()
-					w.Reduce(func(b *Bucket) { sum += b.Sum; count += b.Count })
-					if r.Now() != at {
-						r.Failf("harness-time", "virtual time moved inside Reduce")
+					calls := 0
+					w.Reduce(func(b *Bucket) {
+						// the first callback runs at the clock reading the window was taken at (a stall while
+						// waiting for the lock moves it away from the entry reading)
+						if now := r.Now(); calls == 0 && now != ats[len(ats)-1] {
+							ats = append(ats, now)
+						}
+						calls++
+						// the callback is user code: it may be pre-empted
+						zsim.Yield("reduce-callback")
+						sum += b.Sum
+						count += b.Count
+					})
+					if now := r.Now(); now != ats[len(ats)-1] {
+						if calls == 0 {
+							// stalled, and no callback tells when the window was taken: nothing to compare this result with
+							r.Inconclusive()
+							continue
+						}
 					}
-					reds = append(reds, c09Red{at, int(sum), count, inv, r.Seq()})
+					reds = append(reds, c09Red{ats, int(sum), count, inv, r.Seq()})
 					r.Logf("c%d reduce -> sum %v count %d", t, sum, count)
 				} else {
 					v := 1 + o.Intn(9)
 					at := r.Now()
 					inv := r.Seq()
 					w.Add(float64(v))
-					adds = append(adds, c09Add{at, v, inv, r.Seq()})
+					adds = append(adds, c09Add{at, r.Now(), v, inv, r.Seq()})
 					r.Logf("c%d add %d", t, v)
 				}
 			}
@@ -110,9 +131,12 @@ func c09Run(r *zsim.Run) {
 	set := map[time.Duration]bool{0: true, created % interval: true}
 	for _, a := range adds {
 		set[a.at%interval] = true
+		set[a.end%interval] = true
 	}
 	for _, d := range reds {
-		set[d.at%interval] = true
+		for _, at := range d.ats {
+			set[at%interval] = true
+		}
 	}
 	var ph []time.Duration
 	for p := range set {
@@ -141,42 +165,62 @@ func c09Run(r *zsim.Run) {
 	for _, phase := range cands {
 		ok := true
 		for _, d := range reds {
-			bt := bucket(d.at, phase)
-			sum, count := 0, int64(0)
-			var open []c09Add // adds whose call overlapped the Reduce: either order is possible
-			for _, a := range adds {
-				if a.inv > d.ret {
-					continue
-				}
-				ba := bucket(a.at, phase)
-				if ba > bt-int64(size) && ba <= bt && !(ignore && ba == bt) {
-					if a.ret < d.inv {
+			match := false
+			var sum int
+			var count int64
+			var open []c09Add
+			for _, dat := range d.ats {
+				bt := bucket(dat, phase)
+				sum, count, open = 0, 0, nil // open: adds that may or may not be seen (overlapping call, or stalled across a bucket boundary)
+				for _, a := range adds {
+					if a.inv > d.ret {
+						continue
+					}
+					lo, hi := bucket(a.at, phase), bucket(a.end, phase)
+					in := func(ba int64) bool { return ba > bt-int64(size) && ba <= bt && !(ignore && ba == bt) }
+					all, any := true, false
+					for ba := lo; ba <= hi; ba++ {
+						if in(ba) {
+							any = true
+						} else {
+							all = false
+						}
+					}
+					switch {
+					case all && a.ret < d.inv:
 						sum += a.v
 						count++
-					} else {
+					case any:
 						open = append(open, a)
-					}
-				} else if ba <= bt-int64(size) {
-					aged = true
-				}
-			}
-			match := false
-			for mask := 0; mask < 1<<len(open); mask++ {
-				s2, c2 := sum, count
-				for i, a := range open {
-					if mask>>i&1 == 1 {
-						s2 += a.v
-						c2++
+					case hi <= bt-int64(size):
+						aged = true
 					}
 				}
-				if s2 == d.sum && c2 == d.count {
+				if len(open) > 12 {
+					r.Inconclusive()
 					match = true
+					break
+				}
+				for mask := 0; mask < 1<<len(open) && !match; mask++ {
+					s2, c2 := sum, count
+					for i, a := range open {
+						if mask>>i&1 == 1 {
+							s2 += a.v
+							c2++
+						}
+					}
+					if s2 == d.sum && c2 == d.count {
+						match = true
+					}
+				}
+				if match {
+					break
 				}
 			}
 			if !match {
 				ok = false
 				if firstBad == "" || phase == created%interval {
-					firstBad = fmt.Sprintf("with the buckets aligned at phase %v the Reduce at %v should see sum %d count %d (plus any of %d overlapping adds) but saw sum %d count %d", phase, d.at, sum, count, len(open), d.sum, d.count)
+					firstBad = fmt.Sprintf("with the buckets aligned at phase %v the Reduce at %v should see sum %d count %d (plus any of %d overlapping adds) but saw sum %d count %d", phase, d.ats, sum, count, len(open), d.sum, d.count)
 				}
 				break
 			}
